@@ -21,12 +21,16 @@ static Circuit loop_circuit(Rng &rng, Stats &st, uint64_t &reps_out, bool huge) 
     std::vector<uint32_t> all;
     for (uint32_t q = 0; q < n; q++) all.push_back(q);
     c.safe_append_u("R", all);
+    // pre-loop results that differ from what the loop will record (a stale record then shows)
+    bool excited = rng.chance(0.5);
+    if (excited) c.safe_append_u("X", all);
     // transient: t measurements before the loop that later detectors may look back to
     for (int i = 0; i < t; i++) {
         c.safe_append_u("X_ERROR", {(uint32_t)rng.below(n)}, {0.125});
         c.safe_append_u("M", {(uint32_t)rng.below(n)});
         c.safe_append_u("DETECTOR", {TARGET_RECORD_BIT | 1u});
     }
+    if (excited) c.safe_append_u("R", all);
     Circuit body;
     auto rotate = [&](Circuit &b) {  // cyclic shift of the qubits: the tracked state returns after n iterations
         for (uint32_t q = 0; q + 1 < n; q++) b.safe_append_u("SWAP", {q, q + 1});
